@@ -1,6 +1,7 @@
 #!/bin/bash
 # End-to-end demonstration of REPORT.md findings 1-4 with the built binary (no rebuild): bash demo_findings_e2e.sh [scratch dir]
-# Uses a scratch HOME; prints `git blame` next to `git-ai blame` for each scenario.  Exit 0 = all four deviations observed.
+# Uses a scratch HOME; prints `git blame` next to `git-ai blame` for each scenario and the number of deviations observed:
+# 4 of 4 before the repairs 8b563fec / 67992242 / 3d859ea7 landed in /repo, 1 of 4 (finding 4, still recorded) with a binary built after them.
 set -u
 S=${1:-/var/tmp/w-blameout-demo}; BIN=${GIT_AI_BIN:-/repo/target/debug/git-ai}
 rm -rf "$S"; mkdir -p "$S/home"; cd "$S"
@@ -25,4 +26,4 @@ cd "$S"; mkdir r2 && cd r2 && git init -q . && printf 'alpha beta\nsecond\n' > f
 echo "== finding 4: an (untracked, unconfigured) .git-blame-ignore-revs changes the commit of line 1 for git-ai only"
 git blame f.txt | cut -c1-60; $BIN blame f.txt
 [ "$(git blame f.txt | head -1 | cut -c1-8)" != "$($BIN blame f.txt | head -1 | cut -c1-8)" ] && ok=$((ok+1))
-echo "deviations observed: $ok of 4"; [ $ok -eq 4 ]
+echo "deviations observed: $ok of 4"
